@@ -19,6 +19,8 @@ const Chrome = `type Obj struct{ ID, Class string }
 
 func (o Obj) ObjectID() string    { return o.ID }
 func (o Obj) ObjectClass() string { return o.Class }
+
+var d, v = 7, "vv"
 `
 
 type Kind int
